@@ -150,12 +150,18 @@ func ruleErrorRouting(p *Prog, r *Out) {
 			return true
 		}
 		calls := map[string]int{}
-		inspectCalls(cc, func(c *ast.CallExpr) { calls[p.calleeOf(c)]++ })
+		resets := 0
+		inspectCalls(cc, func(c *ast.CallExpr) {
+			calls[p.calleeOf(c)]++
+			if _, _, _, ok := p.resetCall(c); ok {
+				resets++
+			}
+		})
 		switch v {
 		case 7:
-			goawayCase = calls["(*serverConn).writeGoAway"] >= 1 && calls["(*serverConn).writeReset"] == 0
+			goawayCase = calls["(*serverConn).writeGoAway"] >= 1 && resets == 0
 		case 3:
-			resetCase = calls["(*serverConn).writeReset"] == 1
+			resetCase = resets == 1
 			// nil stream -> goaway
 			for _, s := range cc.Body {
 				if ifs, ok := s.(*ast.IfStmt); ok && p.text(ifs.Cond) == "strm == nil" {
